@@ -290,7 +290,8 @@ Definition st_vf (bn bd : Z) (tol v : R) : Prop := close tol (snd (vmeasure T nr
 Definition st_nmi_clamped : bool := negb (nmi_special nr nc) && nmi_degenerate T nr nc.
 End CaseStatement.
 
-Ltac num_interval := interval with (i_prec 53).
+(* machine floats first; the software floats only when that enclosure is too wide *)
+Ltac num_interval := first [interval with (i_prec 53) | interval with (i_prec 120)].
 Ltac num_sides := cbn [sides ev evl fst snd tenth10]; repeat split; num_interval.
 Ltac num_final := unfold close; cbn [ev evl fst snd tenth10]; num_interval.
 Ltac num_eq := vm_compute; reflexivity.
@@ -314,7 +315,18 @@ Ltac seg_num :=
 (* ================================================================================================== *)
 Example ex_mi : st_mi [0; 0; 1; 1; 2; 2]%nat [0; 1; 1; 1; 0; 0]%nat (1 / 10 ^ 9) (IZR 4162209845443573 / IZR 9007199254740992).
 Proof. seg_num. Qed.
+Example ex_mi_wrong : ~ st_mi [0; 0; 1; 1; 2; 2]%nat [0; 1; 1; 1; 0; 0]%nat (1 / 10 ^ 9) (IZR 4162209845443573 / IZR 9007199254740992 + 1 / 10 ^ 6).
+Proof. unfold st_mi, mi_of, close. rewrite mi_e_ok by (apply Nat.ltb_lt; vm_compute; reflexivity).
+  match goal with |- context [ev ?e] => let e' := eval vm_compute in e in replace e with e' by (vm_compute; reflexivity) end.
+  cbn [ev evl fst snd]. apply Rlt_not_le. interval. Qed.
+Example ex_all : let yr := [0; 0; 1; 1; 2; 2; 2]%nat in let ye := [0; 1; 1; 1; 0; 0; 1]%nat in
+  st_tab yr ye [[1; 1]; [0; 2]; [2; 1]]%nat /\
+  st_nmi yr ye (1 / 10 ^ 9) (IZR 2225294305322177 / IZR 9007199254740992) /\
+  st_over yr ye 1 2 false (1 / 10 ^ 9) (IZR 180555139440383 / IZR 562949953421312) /\
+  st_vf yr ye 1 2 (1 / 10 ^ 9) (IZR 5012813814288449 / IZR 18014398509481984).
+Proof. cbv zeta. seg_num. Qed.
 
+Print Assumptions ex_mi.
 Print Assumptions mi_e_ok.
 Print Assumptions nmi_e_ok.
 Print Assumptions su_e_ok.
